@@ -51,8 +51,11 @@ def check_table(prog, r):
     fv = view(prog, prog.one(GRP))
     r.analysed(fv.name)
     arms = extract_arms(prog, fv, r"gr::Inner", r"rustybgpd::gr::GrOutput")
-    if not arms or len(arms) < 10:
-        r.unanalysable("GrState::process: %s arms extracted (want >= 10)" % (len(arms) if arms else 0), fv.loc())
+    # fail closed if the table cannot be read; counted in (state, input) pairs so that merging arms with or-patterns
+    # (or splitting them) does not matter
+    pairs = {(s_, i_) for a in (arms or []) for s_ in _src(a) for i_ in _inp(a)}
+    if not arms or len(arms) < 6 or len(pairs) < 8:
+        r.unanalysable("GrState::process: %s arms / %d (state, input) pairs extracted (want >= 6 / 8)" % (len(arms) if arms else 0, len(pairs)), fv.loc())
         return arms or []
     for a in arms:
         ns = {s for s in a.new_states if not s.startswith("call:std::mem::replace")}
